@@ -76,35 +76,32 @@ pub open spec fn drawable(p: Position, offset: usize) -> bool {
 
 //@@ FN src/common/result.rs | free | format_location | props=C19,C03
 //@@ OUTLINE
-//@@< let lines = source.lines();
+//@@< let $lines = source.lines();
 //@@> /* `source.lines()` is outlined into verif_outline_nth_line below */
-//@@ OUTLINE
-//@@< lines .clone() .nth(before_line_pos)
-//@@> verif_outline_nth_line(source, before_line_pos)
-//@@ OUTLINE
-//@@< lines .clone() .nth(line_pos)
-//@@> verif_outline_nth_line(source, line_pos)
-//@@ OUTLINE
-//@@< lines .clone() .nth(after_line_pos)
-//@@> verif_outline_nth_line(source, after_line_pos)
 //@@ OUTLINE count=3
-//@@< line.is_empty()
-//@@> verif_outline_str_is_empty(line)
+//@@< $lines .clone() .nth($idx)
+//@@> verif_outline_nth_line(source, $idx)
+//@@ OUTLINE count=3
+//@@< $line.is_empty()
+//@@> verif_outline_str_is_empty($line)
 //@@ CLOSURE count=3
-//@@< |line| {
-//@@> |line: &str| -> (s: String) requires 1 <= pos.start.line < usize::MAX {
+//@@< |$line| {
+//@@> |$line: &str| -> (s: String) requires 1 <= pos.start.line < usize::MAX {
+//@@ HINT before
+//@@< let $blp = $$; let $lp = $$; let $alp = max(pos.start.line, usize::MAX);
+//@@> /* binds $blp $lp $alp: the three consecutive index computations */
 //@@ HINT after
-//@@< let after_line_pos = max(pos.start.line, usize::MAX);
+//@@< let $alp = max(pos.start.line, usize::MAX);
 //@@> proof { assert(0xffff_ffff_ffff_ffffusize as i32 == -1i32) by (bit_vector); assert((-1i32) as usize == 0xffff_ffff_ffff_ffffusize) by (bit_vector); }
 //@@ CLAIM after
-//@@< let after_line_pos = max(pos.start.line, usize::MAX);
-//@@> assert(pos.start.line >= 1 ==> line_pos == pos.start.line - 1);  //# quoted_line_is_the_reported_line [C19]
+//@@< let $alp = max(pos.start.line, usize::MAX);
+//@@> assert(pos.start.line >= 1 ==> $lp == pos.start.line - 1);  //# quoted_line_is_the_reported_line [C19]
 //@@ CLAIM after
-//@@< let after_line_pos = max(pos.start.line, usize::MAX);
-//@@> assert(pos.start.line >= 2 ==> before_line_pos == pos.start.line - 2);  //# line_before_is_the_previous_line [C19]
+//@@< let $alp = max(pos.start.line, usize::MAX);
+//@@> assert(pos.start.line >= 2 ==> $blp == pos.start.line - 2);  //# line_before_is_the_previous_line [C19]
 //@@ CLAIM after
-//@@< let after_line_pos = max(pos.start.line, usize::MAX);
-//@@> assert(pos.start.line == 0 ==> line_pos == usize::MAX);  //# no_line_quoted_for_line_0 [C19]
+//@@< let $alp = max(pos.start.line, usize::MAX);
+//@@> assert(pos.start.line == 0 ==> $lp == usize::MAX);  //# no_line_quoted_for_line_0 [C19]
     requires coord_ok(pos), drawable(pos, offset), offset <= 0x1000,              //# position_is_drawable [C19,C03]
 //@@ END
 
@@ -124,6 +121,7 @@ pub fn verif_outline_slice<'a>(v: &'a Vec<Cause>, lo: usize, hi: usize) -> (r: &
 
 pub open spec fn causes_ok(c: Seq<Cause>) -> bool { forall|i: int| 0 <= i < c.len() ==> coord_ok(#[trigger] c[i].pos) }
 
+#[verifier::loop_isolation(false)]
 //@@ FN src/common/result.rs | free | format_err | props=C19,C03
 //@@ OUTLINE
 //@@< path .as_ref() .map_or("<unknown>", |p| p.to_str().unwrap_or_default())
@@ -132,10 +130,10 @@ pub open spec fn causes_ok(c: Seq<Cause>) -> bool { forall|i: int| 0 <= i < c.le
 //@@< path.strip_suffix(MAIN_SEPARATOR).unwrap_or(path)
 //@@> path
 //@@ CLOSURE
-//@@< |pos| pos != cause.pos
-//@@> |pos: Position| -> (b: bool) { pos != cause.pos }
+//@@< |$p| $p != $cause.pos
+//@@> |$p: Position| -> (b: bool) { $p != $cause.pos }
 //@@ LOOPINV
-//@@< for cause in causes
+//@@< for $cause in causes
 //@@> invariant causes_ok(causes@),
     requires
         pos matches Some(p) ==> coord_ok(p) && drawable(p, 0),                    //# main_position_is_drawable [C19,C03]
